@@ -169,7 +169,10 @@ def concretise(sc: Dict[str, Any], tmp: Path, h: int) -> Tuple[List[str], Dict[s
     return argv, {"out_txt": out_txt, "trace": tmp / "trace"}
 
 
-def run_cli(argv: List[str], cwd: Path) -> Tuple[Any, str, str]:
+def run_cli(argv: List[str], cwd: Path, strict_warnings: bool = False) -> Tuple[Any, str, str]:
+    """strict_warnings: the invocation happens in an interpreter that turns warnings into errors (python -W error /
+    PYTHONWARNINGS=error): the gates and exit codes do not depend on the warning filters."""
+    import warnings
     from semantiva import cli
 
     out, err = io.StringIO(), io.StringIO()
@@ -177,7 +180,9 @@ def run_cli(argv: List[str], cwd: Path) -> Tuple[Any, str, str]:
     os.chdir(cwd)
     code: Any = None
     try:
-        with contextlib.redirect_stdout(out), contextlib.redirect_stderr(err):
+        with contextlib.redirect_stdout(out), contextlib.redirect_stderr(err), warnings.catch_warnings():
+            if strict_warnings:
+                warnings.simplefilter("error")
             try:
                 cli.main(list(argv))
                 code = "returned"
@@ -210,7 +215,7 @@ def observe(case: Dict[str, Any], *, subprocess_mode: bool = False) -> Dict[str,
             touches = next((int(l.split()[1]) for l in out.splitlines() if l.startswith("TOUCHES")), 0)
         else:
             del verif_ext.CALL_LOG[:]
-            code, out, err = run_cli(argv, tmp)
+            code, out, err = run_cli(argv, tmp, strict_warnings=(h % 6 == 1))
             touches = sum(1 for x in verif_ext.CALL_LOG if x[0] == "VTouchOperation")
         trace_files = sorted(str(f.relative_to(tmp)) for f in info["trace"].rglob("*") if f.is_file()) if info["trace"].exists() else []
         records = []
